@@ -126,6 +126,11 @@ func C06(r *Run) *core.Report {
 		nj++
 	}
 	rep.MinCount("C06.E6", "janitor clean-up obligations", nj, 2)
+	// E7: a removal that fired the callback is final - the entry was removed from the current table under a validated
+	// lock and a concurrent resize cannot bring it back (restated from C03/C04 P3-P6)
+	n7 := borrow(rep, mapProtocol(r, "C03", 0), "C06.E7", "C03.P3", "C03.P4", "C03.P5", "C03.P6")
+	n7 += borrow(rep, mapProtocol(r, "C04", 1), "C06.E7", "C04.P3", "C04.P4", "C04.P5", "C04.P6")
+	rep.MinCount("C06.E7", "premise obligations (removals are final)", n7, 10)
 	// E5 second half: borrowed from C13.L5
 	tmp := core.NewReport("C06")
 	c13L5(r, tmp)
